@@ -261,6 +261,9 @@ def check(ctx):
     cn = cfg.node_of(call)
     arg = call.args[0]
     adefs = reaching_assignments(prog, poll, arg.id, call) if isinstance(arg, ast.Name) else [arg]
+    for _hop in range(4):  # follow plain copies of the chosen row
+        if len(adefs) == 1 and isinstance(adefs[0], ast.Name):
+            adefs = reaching_assignments(prog, poll, adefs[0].id, call)
     rows = idx = None
     for d in adefs:
         if isinstance(d, ast.Subscript) and isinstance(d.value, ast.Name):
